@@ -15,9 +15,12 @@ META = {
             'attributes of the last successful writer; null-generation '
             'probes on a snapshot; distinct = (route, microversion band, '
             'transition in {create, update, empty, empty-new, delete, '
-            'rejected-first})'
+            'rejected-first}); plus histories in which half of the writes '
+            'meet one injected database fault (deadlock without rollback, '
+            'generic error, lost connection at a random SQL event) - '
+            'afterwards consumer rows and allocation rows must still match'
             ' plus a concurrent part: the C05-C07 scenario catalogue (and provider-tree races) run under the transaction-granularity scheduler, the same oracle evaluated on every committed state / committing step of every explored interleaving',
-    'floors': {'concurrent_schedules': 100,
+    'floors': {'concurrent_schedules': 100, 'faulted_requests': 100,
                'attribute_checks': 100, 'rejected_first_writes': 5,
                'null_generation_probes_accepted': 5},
     'assumptions': ['SQLite backend', 'sequential histories + committed-state sequences of '
@@ -43,11 +46,28 @@ def plan(tier, seed, scale):
     shards = histrun.plan_seeds(tier, seed, scale, 320, 6400,
                               20 if tier == 'quick' else 100,
                               extra={'steps': 60 if tier == 'quick' else 80})
+    histrun.plan_faulted(shards, tier, seed, scale)
     n = max(1, int(len(CONC) * min(scale, 1)))
     for sh in conc.plan_scenarios(n, tier, seed, per=max(1, (n + 7) // 8)):
         sh['conc'] = True
         shards.append(sh)
     return shards
+
+
+def state_problems(d):
+    held = {c for (c, _, _) in d.allocs}
+    rows = set(d.consumers)
+    return [('consumer-without-allocations', c) for c in sorted(rows - held)
+            ] + [('allocations-without-consumer', c)
+                 for c in sorted(held - rows)]
+
+
+def fault_shard(spec, res):
+    def make_gen(rng):
+        gen = HistoryGen(rng, Names(rng), WEIGHTS)
+        gen.dup_list = True
+        return gen
+    histrun.run_faulted_histories('C12', spec, res, make_gen, state_problems)
 
 
 def conc_shard(spec, res):
@@ -73,6 +93,8 @@ def conc_shard(spec, res):
 def run_shard(spec, res):
     if spec.get('conc'):
         return conc_shard(spec, res)
+    if spec.get('faulted'):
+        return fault_shard(spec, res)
     import random
     crng = random.Random('conf/%s/%s' % (spec['seed'], spec['first']))
     pp = 'incomplete-pj-%d' % crng.randrange(1000)
